@@ -66,7 +66,7 @@ def fill_cache(odb, missing=(), big=False):
             put_raw(odb, ref.md5(data), data)
 
 
-def make_target(tree, form, odb, second_fs=False):
+def make_target(tree, form, odb, second_fs=False, empty_dirs=()):
     from dvc_data.hashfile.hash_info import HashInfo
     from dvc_data.hashfile.meta import Meta
     from dvc_data.index import DataIndex, DataIndexEntry, ObjectStorage
@@ -94,6 +94,11 @@ def make_target(tree, form, odb, second_fs=False):
                 put_raw(odb, oid, ref.tree_bytes(listing))
                 idx[(top,)] = DataIndexEntry(key=(top,), meta=Meta(isdir=True),
                                              hash_info=HashInfo("md5", oid))
+    for dname in empty_dirs:
+        # a directory object whose listing is empty ([]), given lazily
+        oid0 = ref.tree_oid({})
+        put_raw(odb, oid0, ref.tree_bytes({}))
+        idx[(dname,)] = DataIndexEntry(key=(dname,), meta=Meta(isdir=True), hash_info=HashInfo("md5", oid0))
     idx.storage_map.add_cache(ObjectStorage((), odb))
     if form == "explicit" and second_fs:
         # entries below d/ are served by a second cache that lives on another (in-memory) file system
@@ -119,7 +124,7 @@ def make_target(tree, form, odb, second_fs=False):
 
 
 def one_exec(prior, target, form, delete, link, missing=(), missing_dir=None, hashless=False, handler="default",
-             second_fs=False, dangling=(), old_by="md5"):
+             second_fs=False, dangling=(), old_by="md5", empty_dirs=()):
     from dvc_data.index import build as ibuild
     from dvc_data.index import md5 as imd5
     from dvc_data.index.checkout import apply, compare
@@ -137,7 +142,7 @@ def one_exec(prior, target, form, delete, link, missing=(), missing_dir=None, ha
             os.symlink(w.p("nowhere", rel.replace("/", "_")), pth)
         odb = make_odb("local", w.p("cache"), type=[link])
         fill_cache(odb, missing, big=any(c == "c3" for c, _e in list(prior.values()) + list(target.values())))
-        tgt = make_target(target, form, odb, second_fs)
+        tgt = make_target(target, form, odb, second_fs, empty_dirs)
 
         def ws_index():
             if old_by == "build_entries":
@@ -211,7 +216,7 @@ def one_exec(prior, target, form, delete, link, missing=(), missing_dir=None, ha
                 kind = "missing-target-file" if lost else ("leftover-file" if extra else "wrong-bytes")
                 viol.append((f"workspace-differs-from-target/{kind}",
                              f"lost={lost} extra={extra} differ={diffb} errors={len(errors)}"))
-            wantd = dirs_of(target)
+            wantd = dirs_of(target) | set(empty_dirs)
             if not wantd <= gotd:
                 viol.append(("target-directory-missing", f"{sorted(wantd - gotd)}"))
             if gotd - wantd:
@@ -225,7 +230,7 @@ def one_exec(prior, target, form, delete, link, missing=(), missing_dir=None, ha
                 if ex and os.path.isfile(p) and not os.stat(p).st_mode & stat.S_IXUSR:
                     viol.append(("executable-entry-not-executable", rel))
             # second compare: nothing left to create or delete
-            tgt2 = make_target(target, form, odb, second_fs)
+            tgt2 = make_target(target, form, odb, second_fs, empty_dirs)
             if old_by == "build_entries":
                 # a file that is the same in the prior workspace and in the target is left alone
                 for rel, (c, _e) in target.items():
@@ -355,12 +360,23 @@ def run_case(case):
                         ({"d/big": ("c3", False), "d/big2": ("c3", False)}, {"d/big": ("c3", False)}),
                         ({"a": ("c1", False)}, {"a": ("c1", False), "d/big": ("c3", False)})):
             specials.append((pr, tgt, dict(old_by="build_entries"), True))
+        # names that extend the second cache's prefix "d" as strings only; a backslash in a lazily listed name;
+        # an empty directory object
+        for pr in ({}, {"d/x": ("c2", False)}):
+            specials.append((pr, {"d/x": ("c1", False), "d.bak/x": ("c2", False), "dz": ("c1", False)}, dict(second_fs=True), True))
+            specials.append((pr, {"d/back\\slash": ("c1", False), "d/back/slash": ("c2", False)}, dict(form="lazy"), True))
+            specials.append((pr, {"a": ("c1", False)}, dict(form="lazy", empty_dirs=["z0"]), True))
+            specials.append((pr, {"a": ("c1", False)}, dict(empty_dirs=["z0"]), True))
         for pr, tgt, kw, delete in specials:
-            viol, info = one_exec(pr, tgt, "explicit", delete, "copy", **kw)
+            kw = dict(kw)
+            form_ = kw.pop("form", "explicit")
+            viol, info = one_exec(pr, tgt, form_, delete, "copy", **kw)
+            kw["form"] = form_
             res["n"] += 1
             res["trans"] += 4
             res["vac"]["special_shape_runs"] = res["vac"].get("special_shape_runs", 0) + 1
-            tag = "second-fs" if kw.get("second_fs") else ("dangling-link" if kw.get("dangling") else "build_entries")
+            tag = "second-fs" if kw.get("second_fs") else ("dangling-link" if kw.get("dangling") else
+                                                           "build_entries" if kw.get("old_by") else "special-names")
             for sig, detail in viol:
                 sig = f"{sig}/{tag}"
                 if sig not in sigs:
@@ -378,7 +394,8 @@ def run_case(case):
 def replay(case):
     fix = lambda t: {k: tuple(v) for k, v in t.items()}  # noqa: E731
     if case.get("special"):
-        v = one_exec(fix(case["prior"]), fix(case["target"]), "explicit", case["delete"], "copy", **case["special"])[0]
+        sp = dict(case["special"])
+        v = one_exec(fix(case["prior"]), fix(case["target"]), sp.pop("form", "explicit"), case["delete"], "copy", **sp)[0]
         return [(f"{s_}/{case['tag']}", d_) for s_, d_ in v]
     if case.get("missing_dir"):
         a = (fix(case["prior"]), fix(case["target"]), "lazy", case["delete"], "copy")
